@@ -91,6 +91,17 @@ impl LineIndex {
         }
     }
 
+    /// Offset of the end of the content of `line`: the position of its `\n`, or the end of the text
+    /// for the last line. A column past the end of a line is clamped to this offset (LSP `Position`).
+    fn line_end_offset(&self, line: usize, source_text: &str) -> usize {
+        let start = self.line_offsets[line] as usize;
+        let end = match self.line_offsets.get(line + 1) {
+            Some(next_start) => (*next_start as usize).saturating_sub(1),
+            None => source_text.len(),
+        };
+        end.min(source_text.len()).max(start.min(source_text.len()))
+    }
+
     // get offset by line and col
     pub fn get_offset(&self, line: usize, col: usize, source_text: &str) -> Option<TextSize> {
         let start_offset = self.get_line_offset(line)?;
@@ -98,13 +109,15 @@ impl LineIndex {
             return Some(start_offset);
         }
 
+        let line_start = usize::from(start_offset).min(source_text.len());
+        let line_end = self.line_end_offset(line, source_text);
         if self.is_line_only_ascii_index(line) {
-            let col = col.min(source_text.len());
+            let col = col.min(line_end - line_start);
             Some(start_offset + TextSize::from(col as u32))
         } else {
             let mut offset = 0;
             let mut col = col;
-            for c in source_text[usize::from(start_offset)..].chars() {
+            for c in source_text[line_start..line_end].chars() {
                 if col == 0 {
                     break;
                 }
@@ -127,13 +140,15 @@ impl LineIndex {
             return Some(0.into());
         }
 
+        let line_start = usize::from(start_offset).min(source_text.len());
+        let line_end = self.line_end_offset(line, source_text);
         if self.is_line_only_ascii_index(line) {
-            let col = col.min(source_text.len());
+            let col = col.min(line_end - line_start);
             Some(TextSize::from(col as u32))
         } else {
             let mut offset = 0;
             let mut col = col;
-            for c in source_text[usize::from(start_offset)..].chars() {
+            for c in source_text[line_start..line_end].chars() {
                 if col == 0 {
                     break;
                 }
